@@ -97,6 +97,7 @@ fn exec_t<T: Sc, F: Factory<T>>(sc: &Scenario) -> RunReport {
     if let Some(p) = &r.build_panic {
         rep.violate(sc, "PANIC", &format!("build@{}", panic_site(p)), p.clone());
     }
+    expect_built(sc, &mut rep, &r.build, r.build_panic.is_some(), "");
     let w = &r.world;
     let (n, s, m, p) = (w.n(), w.s(), w.m(), w.p());
     let mut prev: Option<Snap> = r.build_snap.clone();
